@@ -29,10 +29,11 @@ VARIABLES l, done,
           callow,
           pmust, pmay,    \* P-layer by events (as CacheObsTrace)
           pgmu, pgma,
-          tagsSeen
+          tagsSeen,
+          runTags         \* one record [id, tags] per finished run
 
-tvars == <<vars, l, done, wpend, callow, pmust, pmay, pgmu, pgma, tagsSeen>>
-tview == <<view, l, done, wpend, callow, pmust, pmay, pgmu, pgma, tagsSeen>>
+tvars == <<vars, l, done, wpend, callow, pmust, pmay, pgmu, pgma, tagsSeen, runTags>>
+tview == <<view, l, done, wpend, callow, pmust, pmay, pgmu, pgma, tagsSeen, runTags>>
 
 NoW == [b |-> -1, k |-> 0, op |-> "", lo |-> 0, hi |-> 0, started |-> TRUE]
 
@@ -46,11 +47,12 @@ TInit ==
     /\ pgmu = [c \in Clients |-> {}]
     /\ pgma = [c \in Clients |-> {}]
     /\ tagsSeen = {}
+    /\ runTags = <<>>
 
 Ev == Rec[l]
 Is(e) == l <= Len(Rec) /\ Ev.e = e
 Consume == l' = l + 1 /\ UNCHANGED done
-TFrame == UNCHANGED <<l, done, wpend, callow, pmust, pmay, pgmu, pgma, tagsSeen>>
+TFrame == UNCHANGED <<l, done, wpend, callow, pmust, pmay, pgmu, pgma, tagsSeen, runTags>>
 
 
 RECURSIVE GeFrom(_, _)
@@ -58,14 +60,28 @@ GeFrom(c, j) == IF j > Len(Rec) THEN [db |-> 0, r |-> <<>>]
                 ELSE IF Rec[j].e = "ge" /\ Rec[j].c = c THEN Rec[j] ELSE GeFrom(c, j + 1)
 
 TRun ==
-    /\ Is("run") /\ l = 1
+    /\ Is("run")
+    /\ ResetWith(Keys, Clients)
+    /\ wpend' = [c \in Clients |-> NoW]
+    /\ callow' = 0
+    /\ pmust' = [k \in Keys |-> {}]
+    /\ pmay' = [k \in Keys |-> {}]
+    /\ pgmu' = [c \in Clients |-> {}]
+    /\ pgma' = [c \in Clients |-> {}]
+    /\ tagsSeen' = {}
+    /\ UNCHANGED runTags
+    /\ Consume
+
+TReset ==
+    /\ Is("reset")
+    /\ runTags' = Append(runTags, [id |-> Ev.id, tags |-> tagsSeen])
     /\ UNCHANGED <<vars, wpend, callow, pmust, pmay, pgmu, pgma, tagsSeen>>
     /\ Consume
 
 TNew ==
     /\ Is("new") /\ Ev.b = NextEpoch
     /\ NewBatch(Ev.c)
-    /\ UNCHANGED <<wpend, callow, pmust, pmay, pgmu, pgma, tagsSeen>>
+    /\ UNCHANGED <<wpend, callow, pmust, pmay, pgmu, pgma, tagsSeen, runTags>>
     /\ Consume
 
 WEl(ev) == IF ev.op = "insr" THEN ev.v..(ev.hi - 1) ELSE {ev.v}
@@ -80,7 +96,7 @@ TWriteStart ==
     /\ pmust' = IF Ev.op = "rem" THEN [pmust EXCEPT ![Ev.k] = @ \ WEl(Ev)] ELSE pmust
     /\ pgma' = [c \in Clients |-> IF Running(c, Ev.k) /\ Ev.op # "rem" THEN pgma[c] \cup WEl(Ev) ELSE pgma[c]]
     /\ pgmu' = [c \in Clients |-> IF Running(c, Ev.k) /\ Ev.op = "rem" THEN pgmu[c] \ WEl(Ev) ELSE pgmu[c]]
-    /\ UNCHANGED <<vars, callow, tagsSeen>>
+    /\ UNCHANGED <<vars, callow, tagsSeen, runTags>>
     /\ Consume
 
 (* hidden: put_set + pin + append of a single-element write *)
@@ -88,7 +104,7 @@ TApply(c) ==
     /\ ~wpend[c].started /\ wpend[c].op \in {"ins", "rem"}
     /\ DoWStart(c, wpend[c].b, wpend[c].k, wpend[c].op, wpend[c].lo)
     /\ wpend' = [wpend EXCEPT ![c].started = TRUE]
-    /\ UNCHANGED <<nops, hist, l, done, callow, pmust, pmay, pgmu, pgma, tagsSeen>>
+    /\ UNCHANGED <<nops, hist, l, done, callow, pmust, pmay, pgmu, pgma, tagsSeen, runTags>>
 
 TUpdate(c) == WUpdate(c) /\ TFrame
 
@@ -121,7 +137,7 @@ TApplyRange(c) ==
         /\ must' = [must EXCEPT ![k] = @ \cup es]
         /\ may' = [may EXCEPT ![k] = @ \cup es]
     /\ wpend' = [wpend EXCEPT ![c].started = TRUE]
-    /\ UNCHANGED <<db, flight, pc, gmust, gmay, nops, hist, viol, l, done, callow, pmust, pmay, pgmu, pgma, tagsSeen>>
+    /\ UNCHANGED <<db, flight, pc, gmust, gmay, nops, hist, viol, l, done, callow, pmust, pmay, pgmu, pgma, tagsSeen, runTags>>
 
 TWriteEnd ==
     /\ Is("we")
@@ -129,19 +145,19 @@ TWriteEnd ==
     /\ wpend' = [wpend EXCEPT ![Ev.c] = NoW]
     /\ pmust' = IF Ev.op = "rem" THEN pmust ELSE [pmust EXCEPT ![Ev.k] = @ \cup WEl(Ev)]
     /\ pmay' = IF Ev.op = "rem" THEN [pmay EXCEPT ![Ev.k] = @ \ WEl(Ev)] ELSE pmay
-    /\ UNCHANGED <<vars, callow, pgmu, pgma, tagsSeen>>
+    /\ UNCHANGED <<vars, callow, pgmu, pgma, tagsSeen, runTags>>
     /\ Consume
 
 TSubmit ==
     /\ Is("sub")
     /\ Submit(Ev.c, Ev.b)
-    /\ UNCHANGED <<wpend, callow, pmust, pmay, pgmu, pgma, tagsSeen>>
+    /\ UNCHANGED <<wpend, callow, pmust, pmay, pgmu, pgma, tagsSeen, runTags>>
     /\ Consume
 
 TCommitStart ==
     /\ Is("cs")
     /\ callow' = Ev.b + 1
-    /\ UNCHANGED <<vars, wpend, pmust, pmay, pgmu, pgma, tagsSeen>>
+    /\ UNCHANGED <<vars, wpend, pmust, pmay, pgmu, pgma, tagsSeen, runTags>>
     /\ Consume
 
 TCommit(e) == e < callow /\ Commit(e) /\ TFrame
@@ -150,7 +166,7 @@ TNotify(e) == e < callow /\ Notify(e) /\ TFrame
 TCommitEnd ==
     /\ Is("ce")
     /\ Ev.b < NextEpoch /\ B(Ev.b).st = "not"
-    /\ UNCHANGED <<vars, wpend, callow, pmust, pmay, pgmu, pgma, tagsSeen>>
+    /\ UNCHANGED <<vars, wpend, callow, pmust, pmay, pgmu, pgma, tagsSeen, runTags>>
     /\ Consume
 
 TGetStart ==
@@ -158,7 +174,7 @@ TGetStart ==
     /\ GetStart(Ev.c, Ev.k)
     /\ pgmu' = [pgmu EXCEPT ![Ev.c] = pmust[Ev.k]]
     /\ pgma' = [pgma EXCEPT ![Ev.c] = pmay[Ev.k]]
-    /\ UNCHANGED <<wpend, callow, pmust, pmay, tagsSeen>>
+    /\ UNCHANGED <<wpend, callow, pmust, pmay, tagsSeen, runTags>>
     /\ Consume
 
 THidden(c) ==
@@ -207,23 +223,23 @@ TGetEnd ==
         /\ gmust' = [gmust EXCEPT ![c] = {}]
         /\ gmay' = [gmay EXCEPT ![c] = {}]
     /\ UNCHANGED <<log, lpres, dirty, lver, entry, db, batch, flight, must, may, nops, hist, viol,
-                   wpend, callow, pmust, pmay, pgmu, pgma>>
+                   wpend, callow, pmust, pmay, pgmu, pgma, runTags>>
     /\ Consume
 
 TSkip ==
-    /\ l <= Len(Rec) /\ Ev.e \in {"flood", "panic", "dead", "reset"}
-    /\ UNCHANGED <<vars, wpend, callow, pmust, pmay, pgmu, pgma, tagsSeen>>
+    /\ l <= Len(Rec) /\ Ev.e \in {"flood", "panic", "dead"}
+    /\ UNCHANGED <<vars, wpend, callow, pmust, pmay, pgmu, pgma, tagsSeen, runTags>>
     /\ Consume
 
 TFinish ==
     /\ l = Len(Rec) + 1 /\ ~done
-    /\ JsonSerialize(IOEnv.OUT, [accepted |-> TRUE, tags |-> tagsSeen])
+    /\ JsonSerialize(IOEnv.OUT, [accepted |-> TRUE, runs |-> runTags])
     /\ done' = TRUE
-    /\ UNCHANGED <<vars, l, wpend, callow, pmust, pmay, pgmu, pgma, tagsSeen>>
+    /\ UNCHANGED <<vars, l, wpend, callow, pmust, pmay, pgmu, pgma, tagsSeen, runTags>>
 
 TNext ==
     \/ TRun \/ TNew \/ TWriteStart \/ TWriteEnd \/ TSubmit \/ TCommitStart \/ TCommitEnd
-    \/ TGetStart \/ TGetEnd \/ TSkip \/ TFinish
+    \/ TGetStart \/ TGetEnd \/ TSkip \/ TReset \/ TFinish
     \/ \E c \in Clients : TApply(c) \/ TApplyRange(c) \/ TUpdate(c) \/ THidden(c) \/ TRead(c)
     \/ \E e \in 0..(NextEpoch - 1) : TCommit(e) \/ TNotify(e)
     \/ \E k \in Keys : TEvict(k)
